@@ -629,3 +629,16 @@ import random as _random
 def rng(seed, *stream):
     """deterministic python RNG for (seed, stream...)"""
     return _random.Random(sha(str(seed), *[str(s) for s in stream]))
+
+
+def call_worker(ctx, module, function, args, timeout=900, tag="w", env=None):
+    """run module.function(**args) in a child python; returns (result or None, Result)"""
+    f = ctx.work / ("%s-%s.json" % (tag, sha(json.dumps(args, sort_keys=True, default=str))[:10]))
+    f.write_text(json.dumps(args, default=str))
+    r = run([sys.executable, str(VERIF / "lib/worker.py"), module, function, str(f)], timeout=timeout, cwd=ctx.work, env=env)
+    res = None
+    for line in reversed(r.out.splitlines()):
+        if line.startswith("@@RESULT "):
+            res = json.loads(line[9:])
+            break
+    return res, r
